@@ -58,9 +58,12 @@ func (x *userGuardian) Receive(ctx *ReceiveContext) {
 			x.logger.Infof("actor=%s started successfully", x.pid.Name())
 		}
 	case *Terminated:
+		// Terminated travels through the system mailbox, which is drained before
+		// the user mailbox that carries PostStart: the fields set by PostStart may
+		// not be there yet, so take everything from the context
 		actorID := msg.ActorPath()
-		if x.logger.Enabled(log.DebugLevel) {
-			x.logger.Debugf("actor=%s received terminated actor=%s", x.pid.Name(), actorID)
+		if logger := ctx.Logger(); logger.Enabled(log.DebugLevel) {
+			logger.Debugf("actor=%s received terminated actor=%s", ctx.Self().Name(), actorID)
 		}
 		// pass
 	default:
